@@ -36,19 +36,22 @@ Names == { <<"a">>, <<"b">>, <<"a","b">>, <<"a","_","b">>, <<"a","_","_","b">>, 
 RawOnly == { <<"f","n">> }            \* keywords: only usable as r#fn
 Reserved == { <<"n","e","w">>, <<"s","e","r","v","e">> }
 
-Method == [name : Names, nargs : 0..2, argty : {"same", "diff"}, ret : {"unit", "int", "str"}]
+(* argty "ctx": a single argument that is itself called `ctx` and is a tarpc Context - the name the generated  *)
+(* glue uses for the request's context                                                                       *)
+Method == [name : Names, nargs : 0..2, argty : {"same", "diff", "ctx"}, ret : {"unit", "int", "str"}]
 
 VARIABLE svc
 Init == svc = <<>>
 Next == /\ Len(svc) < MaxMethods
         /\ \E m \in Method :
-             /\ (m.nargs < 2 => m.argty = "same")
+             /\ (m.nargs = 0 => m.argty = "same") /\ (m.nargs = 1 => m.argty \in {"same", "ctx"}) /\ (m.nargs = 2 => m.argty \in {"same", "diff"})
              /\ \A i \in DOMAIN svc : svc[i].name # m.name            \* Rust itself rejects duplicate fn names
              /\ svc' = Append(svc, m)
 Spec == Init /\ [][Next]_svc
 
 Variant(m) == SnakeToCamel(m.name)
 Accepted == /\ \A i \in DOMAIN svc : svc[i].name \notin Reserved
+            /\ \A i \in DOMAIN svc : svc[i].argty # "ctx"       \* would shadow / duplicate the glue's own `ctx`
             /\ \A i, j \in DOMAIN svc : i # j => Variant(svc[i]) # Variant(svc[j])
 
 (* sanity laws of the transcription: a variant has no underscore and starts upper-case *)
